@@ -267,8 +267,13 @@ func (l *local) subnetCase(rng *rand.Rand, ip net.IP, mask net.IPMask) {
 			n.Mask = nil
 		}
 		l.e++
+		backing := n.IP // the caller's bytes: other values may share them
 		p, err := cl.f(n)
 		sig := fmt.Sprintf("%s:%x/%x", cl.name, []byte(ip), []byte(mask))
+		if !bytes.Equal(backing, ip) || !bytes.Equal(n.Mask, mask) {
+			l.viol("mutates:"+sig, fmt.Sprintf("%s(%x mask %x) overwrote the bytes of its argument: IP bytes now %x, mask %x", cl.name, []byte(ip), []byte(mask), []byte(backing), []byte(n.Mask)), c)
+			continue
+		}
 		if !canonical(mask) {
 			l.n++
 			if err == nil {
